@@ -32,12 +32,14 @@
 -/
 import FsModel.Ref
 import FsModel.Multi
+import FsModel.BaseWalk
 
 namespace Fs.MultiFs
 open Fs Fs.Path Fs.Ref
 
-/-- a layer filesystem: one call = new state and outcome -/
-abbrev FS (σ : Type) := σ → Op → σ × Out
+/- a layer filesystem (`FS σ`: one call = new state and outcome), `ScanInfo` and `normRes` are the ones of
+`FsModel.BaseWalk`, whose walkers this file instantiates -/
+export Fs.BaseWalk (FS ScanInfo normRes)
 
 structure Layer (σ : Type) where
   name : Str
@@ -128,12 +130,6 @@ def onWrite (F : FS σ) (s : MState σ) (op : Op) : MState σ × Out :=
   | none => (s, .err .ResourceReadOnly)
   | some i => callLayer F s i op
 
-/-- `abspath(normpath(path))` -/
-def normRes (p : Str) : Res Str :=
-  match normpath p with
-  | .err e => .err e
-  | .ok n => .ok (abspath n)
-
 /-- `MultiFS.getinfo`: `_delegate`, ResourceNotFound when none, then `fs.getinfo(abspath(normpath(path)))` -/
 def getinfoM (F : FS σ) (s : MState σ) (p : Str) : MState σ × Out :=
   match delegate F s p with
@@ -172,8 +168,7 @@ def listdirM (F : FS σ) (s : MState σ) (p : Str) : MState σ × Out :=
   | (s1, .ok (acc, true)) => (s1, .ok (.names (Multi.dedup acc)))
   | (s1, .ok (_, false)) => (s1, .err .ResourceNotFound)
 
-/-- what a scan yields for one entry: name, `is_dir`, size — from the layer that listed it first -/
-abbrev ScanInfo := Name × Bool × Nat
+/- what a scan yields for one entry (`ScanInfo`): name, `is_dir`, size — from the layer that listed it first -/
 
 /-- the `Info`s one layer contributes to `_scandir`: the names not seen so far, each described by
 that layer -/
@@ -318,192 +313,45 @@ def copyM (F : FS σ) (s : MState σ) (a b : Str) (overwrite : Bool) : MState σ
         | (s3, .ok _) => (s3, .err .DestinationExists)
         | r => r
 
-/-! ### `FS.removetree` (inherited): depth-first walk, `remove` / `removedir` of every entry -/
+/-! ### the walkers of `FS.removetree`, `FS.copydir`, `FS.movedir` (inherited): `FsModel.BaseWalk` over the
+MultiFS's own methods -/
 
-/-- one directory of the depth-first walk: files are removed as they are met, a sub-directory is
-walked (`visit`) and then removed.  Both `remove` and `removedir` act on the layer that HAS the path. -/
-def rmEntries (F : FS σ) (visit : Str → MState σ → MState σ × Out) (d : Str) :
-    List ScanInfo → MState σ → MState σ × Out
-  | [], s => (s, .ok .unit)
-  | (n, isDir, _) :: rest, s =>
-    let child := combine d n
-    if isDir then
-      match visit child s with
-      | (s1, .ok _) =>
-        (match onDelegate F s1 child (.removedir child) with
-         | (s2, .ok _) => rmEntries F visit d rest s2
-         | r => r)
-      | r => r
-    else
-      match onDelegate F s child (.remove child) with
-      | (s1, .ok _) => rmEntries F visit d rest s1
-      | r => r
-
-def rmWalk (F : FS σ) : Nat → Str → MState σ → MState σ × Out
-  | 0, _, s => (s, .err .Leak)
-  | fuel + 1, d, s =>
-    match scanM F s d with
-    | (s1, .err e) => (s1, .err e)
-    | (s1, .ok infos) => rmEntries F (rmWalk F fuel) d infos s1
+/-- the calls the base-class bulk algorithms make on a MultiFS object: `scandir` is `MultiFS.scandir`,
+`makedir` / `makedirs` go to the WRITE layer, `remove` / `removedir` act on the layer that HAS the path,
+`copy` is the inherited `FS.copy` (read through `_delegate`, write to the write layer) -/
+def prim (F : FS σ) : BaseWalk.Prim (MState σ) where
+  validatepath := validateM F
+  exists_ := existsM F
+  getinfo := getinfoM F
+  scandir := scanM F
+  makedir := fun s p => onWrite F s (.makedir p true)
+  makedirs := fun s p => onWrite F s (.makedirs p true)
+  copy := fun s a b => copyM F s a b true
+  remove := fun s p => onDelegate F s p (.remove p)
+  removedir := fun s p => onDelegate F s p (.removedir p)
 
 /-- `FS.removetree(dir_path)`: `abspath(normpath(dir_path))` comes BEFORE any `check()`; the first
-`scandir` of the walker then checks the closed flag; the root itself is kept -/
+`scandir` of the walker then checks the closed flag (`MultiFS.scandir` → `self.check()`); the root itself
+is kept -/
 def removetreeM (F : FS σ) (fuel : Nat) (s : MState σ) (p : Str) : MState σ × Out :=
   match normRes p with
   | .err e => (s, .err e)
   | .ok np =>
     if s.closed then (s, .err .FilesystemClosed)
-    else match rmWalk F fuel np s with
-      | (s1, .ok _) =>
-        if np = ['/'] then (s1, .ok .unit)
-        else onDelegate F s1 p (.removedir p)      -- `self.removedir(dir_path)`: the raw argument
-      | r => r
+    else BaseWalk.removetreeBody (prim F) fuel s p np
 
-/-! ### `copy_dir` (fs/copy.py): `copy_structure`, then every file through `copy_file_internal` -/
-
-/-- the path below the destination that corresponds to `path` below the source:
-`combine(dst_root, frombase(src_root, path))` -/
-def target (srcRoot dstRoot path : Str) : Res Str :=
-  match frombase srcRoot path with
-  | .err e => .err e
-  | .ok rel => .ok (combine dstRoot rel)
-
-/-- one directory of `copy_structure`'s breadth-first `walker.dirs`: every sub-directory is created at
-the destination — in the WRITE layer — (`makedir(…, recreate=True)`) and queued -/
-def structEntries (F : FS σ) (srcRoot dstRoot d : Str) :
-    List ScanInfo → List Str → MState σ → MState σ × Res (List Str)
-  | [], q, s => (s, .ok q)
-  | (n, isDir, _) :: rest, q, s =>
-    if isDir then
-      let child := combine d n
-      match target srcRoot dstRoot child with
-      | .err e => (s, .err e)
-      | .ok t =>
-        match onWrite F s (.makedir t true) with
-        | (s1, .ok _) => structEntries F srcRoot dstRoot d rest (q ++ [child]) s1
-        | (s1, .err e) => (s1, .err e)
-    else structEntries F srcRoot dstRoot d rest q s
-
-def structLoop (F : FS σ) (srcRoot dstRoot : Str) : Nat → List Str → MState σ → MState σ × Out
-  | 0, _, s => (s, .err .Leak)
-  | _ + 1, [], s => (s, .ok .unit)
-  | fuel + 1, d :: queue, s =>
-    match scanM F s d with
-    | (s1, .err e) => (s1, .err e)
-    | (s1, .ok infos) =>
-      match structEntries F srcRoot dstRoot d infos queue s1 with
-      | (s2, .err e) => (s2, .err e)
-      | (s2, .ok q) => structLoop F srcRoot dstRoot fuel q s2
-
-/-- `copy_file_internal(fs, src, fs, dst)` on ONE filesystem object: both paths validated, the same-path
-test, then `fs.copy(src, dst, overwrite=True)` -/
-def copyFileInternal (F : FS σ) (s : MState σ) (a b : Str) : MState σ × Out :=
-  match validateM F s a with
-  | (s1, .err e) => (s1, .err e)
-  | (s1, .ok ns) =>
-    match validateM F s1 b with
-    | (s2, .err e) => (s2, .err e)
-    | (s2, .ok nd) =>
-      if ns = nd then (s2, .err .IllegalDestination) else copyM F s2 a b true
-
-/-- one directory of the breadth-first `walker.files`: files are copied as they are met -/
-def fileEntries (F : FS σ) (srcRoot dstRoot d : Str) :
-    List ScanInfo → List Str → MState σ → MState σ × Res (List Str)
-  | [], q, s => (s, .ok q)
-  | (n, isDir, _) :: rest, q, s =>
-    let child := combine d n
-    if isDir then fileEntries F srcRoot dstRoot d rest (q ++ [child]) s
-    else
-      match target srcRoot dstRoot child with
-      | .err e => (s, .err e)
-      | .ok t =>
-        match copyFileInternal F s child t with
-        | (s1, .ok _) => fileEntries F srcRoot dstRoot d rest q s1
-        | (s1, .err e) => (s1, .err e)
-
-def filesLoop (F : FS σ) (srcRoot dstRoot : Str) : Nat → List Str → MState σ → MState σ × Out
-  | 0, _, s => (s, .err .Leak)
-  | _ + 1, [], s => (s, .ok .unit)
-  | fuel + 1, d :: queue, s =>
-    match scanM F s d with
-    | (s1, .err e) => (s1, .err e)
-    | (s1, .ok infos) =>
-      match fileEntries F srcRoot dstRoot d infos queue s1 with
-      | (s2, .err e) => (s2, .err e)
-      | (s2, .ok q) => filesLoop F srcRoot dstRoot fuel q s2
-
-/-- `copy_dir(fs, src_path, fs, dst_path)` = `copy_dir_if(…, "always")`, single-threaded `Copier` -/
+/-- `copy_dir(fs, src_path, fs, dst_path)` -/
 def copyDirM (F : FS σ) (fuel : Nat) (s : MState σ) (a b : Str) : MState σ × Out :=
-  match normRes a with                                   -- `_src_path = abspath(normpath(src_path))`
-  | .err e => (s, .err e)
-  | .ok na =>
-    match normRes b with
-    | .err e => (s, .err e)
-    | .ok nb =>
-      -- copy_structure(src_fs, dst_fs, walker, src_path, dst_path)
-      match validateM F s a with
-      | (s1, .err e) => (s1, .err e)
-      | (s1, .ok ra) =>
-        match validateM F s1 b with
-        | (s2, .err e) => (s2, .err e)
-        | (s2, .ok rb) =>
-          if isbase ra rb then (s2, .err .IllegalDestination)
-          else match onWrite F s2 (.makedirs rb true) with
-            | (s3, .ok _) =>
-              (match structLoop F ra rb fuel [ra] s3 with
-               | (s4, .ok _) => filesLoop F na nb fuel [na] s4
-               | r => r)
-            | r => r
+  BaseWalk.copyDir (prim F) fuel s a b
 
 /-- `FS.copydir` (inherited) -/
 def copydirM (F : FS σ) (fuel : Nat) (s : MState σ) (a b : Str) (create : Bool) : MState σ × Out :=
-  match validateM F s a with
-  | (s1, .err e) => (s1, .err e)
-  | (s1, .ok ns) =>
-    match validateM F s1 b with
-    | (s2, .err e) => (s2, .err e)
-    | (s2, .ok nd) =>
-      if isbase ns nd then (s2, .err .IllegalDestination)
-      else
-        let body (t : MState σ) : MState σ × Out :=
-          match getinfoM F t ns with
-          | (t1, .ok (.info _ true _)) => copyDirM F fuel t1 ns nd
-          | (t1, .ok _) => (t1, .err .DirectoryExpected)
-          | r => r
-        if create then body s2
-        else match existsM F s2 nd with
-          | (s3, .ok (.bool false)) => (s3, .err .ResourceNotFound)
-          | (s3, .ok _) => body s3
-          | r => r
+  BaseWalk.copydir (prim F) fuel s a b create
 
 /-- `FS.movedir` (inherited) → `move_dir(self, src_path, self, dst_path)` with the RAW arguments:
 `getinfo(src).is_dir`, `makedir(dst, recreate=True)`, `copy_dir`, `removetree(src)` -/
 def movedirM (F : FS σ) (fuel : Nat) (s : MState σ) (a b : Str) (create : Bool) : MState σ × Out :=
-  match validateM F s a with
-  | (s1, .err e) => (s1, .err e)
-  | (s1, .ok ns) =>
-    match validateM F s1 b with
-    | (s2, .err e) => (s2, .err e)
-    | (s2, .ok nd) =>
-      if ns = nd then (s2, .ok .unit)
-      else if isbase ns nd then (s2, .err .IllegalDestination)
-      else
-        let body (t : MState σ) : MState σ × Out :=
-          match getinfoM F t a with
-          | (t1, .ok (.info _ true _)) =>
-            (match onWrite F t1 (.makedir b true) with
-             | (t2, .ok _) =>
-               (match copyDirM F fuel t2 a b with
-                | (t3, .ok _) => removetreeM F fuel t3 a
-                | r => r)
-             | r => r)
-          | (t1, .ok _) => (t1, .err .DirectoryExpected)
-          | r => r
-        if create then body s2
-        else match existsM F s2 b with
-          | (s3, .ok (.bool false)) => (s3, .err .ResourceNotFound)
-          | (s3, .ok _) => body s3
-          | r => r
+  BaseWalk.movedir (prim F) (removetreeM F fuel) fuel s a b create
 
 /-! ### `close` -/
 
